@@ -1,12 +1,15 @@
 package c19
 
 import (
+	"bytes"
 	"fmt"
 	"strings"
 	"testing"
 	"time"
 
+	abci "github.com/cometbft/cometbft/abci/types"
 	sdk "github.com/cosmos/cosmos-sdk/types"
+	stakingtypes "github.com/cosmos/cosmos-sdk/x/staking/types"
 
 	"github.com/osmosis-labs/osmosis/osmomath"
 	clmodel "github.com/osmosis-labs/osmosis/v31/x/concentrated-liquidity/model"
@@ -301,4 +304,55 @@ func TestKnown_C19_superfluid_invariant_exact(t *testing.T) {
 		mustTx(t, n, 5*time.Second, 1, &pmtypes.MsgSwapExactAmountIn{Sender: Actor(1).String(), Routes: []pmtypes.SwapAmountInRoute{{PoolId: 2, TokenOutDenom: "uosmo"}}, TokenIn: coin(Bond, 1_234_567), TokenOutMinAmount: osmomath.OneInt()})
 	}
 	t.Log("all exports imported: finding no longer reproduces")
+}
+
+// TestKnown_C19_staking_unbonding_id_not_exported: the staking module (cosmos-sdk fork, outside the repository) numbers
+// unbonding operations with a counter that its genesis does not carry; a node initialised from an export restarts the
+// counter, so an undelegation after the import gets an id an older entry already has.
+func TestKnown_C19_staking_unbonding_id_not_exported(t *testing.T) {
+	n := NewNode(Bootstrap(defaultCfg()))
+	defer n.Close()
+	val := n.view().vals[0]
+	mustTx(t, n, 5*time.Second, 1, &stakingtypes.MsgDelegate{DelegatorAddress: Actor(1).String(), ValidatorAddress: val, Amount: coin(Bond, 1_000_000)})
+	mustTx(t, n, 5*time.Second, 1, &stakingtypes.MsgUndelegate{DelegatorAddress: Actor(1).String(), ValidatorAddress: val, Amount: coin(Bond, 1000)})
+	imp := exportImport(t, n)
+	defer imp.Close()
+	if _, err := imp.RunBlock(5*time.Second, nil, nil); err != nil {
+		t.Fatal(err)
+	}
+	if _, err := n.RunBlock(5*time.Second, nil, n.Votes()); err != nil {
+		t.Fatal(err)
+	}
+	tx := func(x *Node) {
+		b, err := x.SignTx(1, 0, 6_000_000, stdFee(), &stakingtypes.MsgUndelegate{DelegatorAddress: Actor(1).String(), ValidatorAddress: val, Amount: coin(Bond, 2000)})
+		if err != nil {
+			t.Fatal(err)
+		}
+		var votes []abci.VoteInfo
+		if x == n {
+			votes = n.Votes()
+		}
+		br, err := x.RunBlock(5*time.Second, [][]byte{b}, votes)
+		if err != nil {
+			t.Fatal(err)
+		}
+		if r := DecodeTxResult(br.Tx[0]); r.Code != 0 {
+			t.Fatalf("undelegate rejected: %s", r.Log)
+		}
+	}
+	tx(n)
+	tx(imp)
+	_, pa, _ := n.Export()
+	_, pb, err := imp.Export()
+	if err != nil {
+		t.Fatal(err)
+	}
+	if !bytes.Equal(pa["staking"], pb["staking"]) {
+		drv.Reproduced(t, "C19-staking-unbonding-id-not-exported")
+		if !drv.Known("C19-staking-unbonding-id-not-exported") {
+			t.Fatalf("staking state differs on the imported node after one more undelegation\n%s", diffStr(string(pa["staking"]), string(pb["staking"])))
+		}
+		return
+	}
+	t.Log("staking exports agree: finding no longer reproduces")
 }
